@@ -162,6 +162,16 @@ class History(c01.History):
         if got == dl.TRUE:
             self.m = out.ctx
         self.assert_state("rollback" if got != dl.TRUE else "bindings-after", f"after {got} for {spec!r} on {s['shape']}")
+        if got == dl.FALSE and s.get("explain", True):
+            # what beartype does after isinstance() returned False: ask the annotation's message hook why.  That second
+            # evaluation is a failed check like any other: it returns a non-empty explanation and binds nothing.
+            try:
+                why = ann.__instancecheck_str__(value)
+            except BaseException as e:  # noqa: BLE001
+                raise Violation("explain-raised", self.case(), f"__instancecheck_str__ of {s['cat']}[{s['at']},{spec!r}] on {s['shape']} raised {type(e).__name__}: {e}")
+            if not (isinstance(why, str) and why):
+                raise Violation("explain-empty", self.case(), f"isinstance gave False but __instancecheck_str__ returned {why!r} for {s['cat']}[{s['at']},{spec!r}] on {s['shape']}")
+            self.assert_state("rollback", f"after asking __instancecheck_str__ why {spec!r} rejected {s['shape']}")
         self._finish(s, got, out, spec, ["array", spec, s["shape"], sorted(self._before.items())])
 
     def step_raise_sym(self, s):
